@@ -15,12 +15,26 @@
 (* requested set incl. absent keys and an optional block of 11 absent      *)
 (* filler keys that pushes the request over the parallel-collection        *)
 (* threshold, operation sequence) for the executor.                        *)
+(*                                                                         *)
+(* Uni = "shape": ranks 0..15 are the 16 keys whose nibbles at four        *)
+(* consecutive positions range over {0,1} (executed once with the window   *)
+(* at the head and once at the tail of the 64-nibble key), so that the     *)
+(* enumeration of contents is an enumeration of local trie SHAPES:         *)
+(* branch below branch, one-/two-nibble extension, leaf rests of length    *)
+(* 0, 1, 2 and ~60 -- the case analysis of export, import and of the       *)
+(* merge a delete causes depends on exactly these.                         *)
 (***************************************************************************)
 EXTENDS WMPT, Integers
 
 CONSTANTS PKeys,     \* keys that may be present (ranks into the executor's key universe)
           AKeys,     \* keys that are never present (>= 100)
-          MaxOps
+          MaxOps,
+          Uni,       \* executor key universe the ranks refer to: "w" (prefix universe) or "shape" (see below)
+          MaxInit,   \* bound on the size of the source content
+          MaxReq,    \* bound on the number of requested keys
+          Bigs,      \* whether the request is padded with 11 absent filler keys
+          InMemory,  \* include the source trie that was never committed (level -1)
+          Levels     \* collapse levels: L = Commit(L), 100+L = Commit(L) and re-opened from (root, weight)
 VARIABLES req, level, big, nops, init
 
 pvars == <<kv, dur, ck, st, hist, last, req, level, big, nops, init>>
@@ -29,15 +43,15 @@ ValOf(k) == "bb#" \o ToString(k)
 WOf(v) == 2
 
 PInit ==
-  /\ \E D \in SUBSET PKeys : kv = [k \in D |-> [v |-> "a#" \o ToString(k), w |-> 1]]
+  /\ \E D \in SUBSET PKeys : Cardinality(D) <= MaxInit /\ kv = [k \in D |-> [v |-> "a#" \o ToString(k), w |-> 1]]
   /\ init = kv
-  /\ req \in SUBSET (PKeys \cup AKeys)
-  /\ level \in {-1, 0, 1}
-  /\ big \in BOOLEAN
+  /\ req \in {R \in SUBSET (PKeys \cup AKeys) : Cardinality(R) <= MaxReq}
+  /\ level \in Levels \cup (IF InMemory THEN {-1} ELSE {})
+  /\ big \in Bigs
   /\ nops = 0 /\ hist = <<>> /\ last = "init"
   /\ dur = EmptyKV /\ ck = EmptyKV /\ st = [clean |-> TRUE, saved |-> FALSE, commits |-> 0]
 
-Plan == [init |-> {<<k, init[k].v>> : k \in DOMAIN init}, level |-> level, req |-> req, big |-> big, ops |-> hist]
+Plan == [uni |-> Uni, init |-> {<<k, init[k].v>> : k \in DOMAIN init}, level |-> level, req |-> req, big |-> big, ops |-> hist]
 Emit == PrintT(<<"VERIF_HIST", ToJson(Plan)>>)
 
 PUpdate(k) ==
